@@ -1,6 +1,7 @@
 package main
 
 import (
+	"go/ast"
 	"go/token"
 	"go/types"
 	"sort"
@@ -444,6 +445,7 @@ func runC14(c *Ctx, tier string) {
 	c.borrow(func(t *Ctx) { runC16S1(t) }, map[string]string{"C16-D1": "C14-D1"})
 	runObjectsBeforeCommit(c, "C14-O1")
 	stableSorts(c, "C14-S1", []string{"runtime/sam/op/meta.sortObjects", "(*runtime/sam/expr.Comparator).sortStableIndices"})
+	runDeleteComplement(c)
 }
 
 // stableSorts: the named functions sort with a stable algorithm.
@@ -805,4 +807,94 @@ func init() {
 	register(&PropertyDef{ID: "C17", Run: runC17,
 		Explanation: "Decides the order in which durable effects are issued, for all paths: commit object before branch pointer (O1), data before metadata (O2), journal entry before HEAD with a closed set of HEAD writers (O3), lake magic last and HEAD before TAIL (O4), pool directory before name and name before data on drop (O5), HEAD treated as a hint (H1: genuine known finding). Does NOT decide what a reopened lake sees after a torn non-atomic put.",
 		Assumptions: []string{"a storage operation issued later in program order is not made durable before an earlier one returned"}})
+}
+
+// runDeleteComplement: C14-W1.
+func runDeleteComplement(c *Ctx) {
+	p := c.P
+	c.Rule("C14-W1", "delete-where keeps exactly the complement: the deleter's evaluator is `!P or missing(P)` over the same pushed-down predicate P, and the deleter has no buffer filter (a frame filter for P would drop the frames whose values must all be kept)")
+	pk := p.Pkgs["compiler/kernel"]
+	ae := p.Func("(*compiler/kernel.DeleteFilter).AsEvaluator")
+	ab := p.Func("(*compiler/kernel.DeleteFilter).AsBufferFilter")
+	if pk == nil || ae == nil || p.Decl(ae) == nil {
+		c.Undecided("C14-W1", "(*compiler/kernel.DeleteFilter).AsEvaluator", "anchor does not resolve")
+	} else {
+		info := pk.TypesInfo
+		field := func(cl *ast.CompositeLit, name string) ast.Expr {
+			for _, el := range cl.Elts {
+				if kv, ok := el.(*ast.KeyValueExpr); ok {
+					if k, ok := kv.Key.(*ast.Ident); ok && k.Name == name {
+						return kv.Value
+					}
+				}
+			}
+			return nil
+		}
+		lit := func(e ast.Expr) *ast.CompositeLit {
+			if u, ok := e.(*ast.UnaryExpr); ok {
+				e = u.X
+			}
+			cl, _ := e.(*ast.CompositeLit)
+			return cl
+		}
+		ok := false
+		ast.Inspect(p.Decl(ae).Body, func(n ast.Node) bool {
+			cl, isCL := n.(*ast.CompositeLit)
+			if !isCL || namedOf(info.TypeOf(cl)) != "compiler/ast/dag.BinaryExpr" {
+				return true
+			}
+			op, _ := constString(info, field(cl, "Op"))
+			l, r := lit(field(cl, "LHS")), lit(field(cl, "RHS"))
+			if op != "or" || l == nil || r == nil {
+				return true
+			}
+			// one side is !P, the other missing(P)
+			sides := []*ast.CompositeLit{l, r}
+			var neg, miss string
+			for _, s := range sides {
+				switch namedOf(info.TypeOf(s)) {
+				case "compiler/ast/dag.UnaryExpr":
+					if o, _ := constString(info, field(s, "Op")); o == "!" {
+						neg = types.ExprString(field(s, "Operand"))
+					}
+				case "compiler/ast/dag.Call":
+					if nm, _ := constString(info, field(s, "Name")); nm == "missing" {
+						if args, isA := field(s, "Args").(*ast.CompositeLit); isA && len(args.Elts) == 1 {
+							miss = types.ExprString(args.Elts[0])
+						}
+					}
+				}
+			}
+			if neg != "" && neg == miss && strings.HasSuffix(neg, ".pushdown") {
+				ok = true
+			}
+			return true
+		})
+		if ok {
+			c.OK("C14-W1", "(*compiler/kernel.DeleteFilter).AsEvaluator", ae.Pos(), "`!P or missing(P)` over the same pushdown")
+		} else {
+			c.Fail("C14-W1", "(*compiler/kernel.DeleteFilter).AsEvaluator", ae.Pos(), "the evaluator used to rewrite an object on delete-where is not `!P or missing(P)` over the pushed-down predicate: values for which P is an error/missing would be dropped, or values matching P kept")
+		}
+	}
+	if ab == nil {
+		c.Fail("C14-W1", "(*compiler/kernel.DeleteFilter).AsBufferFilter", token.NoPos, "DeleteFilter no longer overrides AsBufferFilter: it inherits the buffer filter of P from the embedded Filter, so frames containing no match of P — whose values must all be kept — are dropped when an object is rewritten")
+	} else {
+		calls := 0
+		for range allCalls(ab) {
+			calls++
+		}
+		allNil := true
+		for _, b := range ab.Blocks {
+			for _, in := range b.Instrs {
+				if r, ok := in.(*ssa.Return); ok && !isNilConst(r.Results[0]) {
+					allNil = false
+				}
+			}
+		}
+		if calls == 0 && allNil {
+			c.OK("C14-W1", "(*compiler/kernel.DeleteFilter).AsBufferFilter", ab.Pos(), "no buffer filter for the complement")
+		} else {
+			c.Fail("C14-W1", "(*compiler/kernel.DeleteFilter).AsBufferFilter", ab.Pos(), "the deleter is given a buffer filter: an over-approximation of P is not an over-approximation of its complement, so frames whose values must be kept are dropped")
+		}
+	}
 }
